@@ -66,7 +66,8 @@ def build_frame(env, formula_vars, flavour="str", order="sorted", reps=1, min_ro
             elif flavour == "cat":
                 cols[v] = pd.Categorical(vals, categories=LEVELS[v])
             elif flavour == "ord":
-                cols[v] = pd.Categorical(vals, categories=LEVELS[v], ordered=True)
+                # the declared order, plus a declared category that no row has (an empty bin, a filtered-out level)
+                cols[v] = pd.Categorical(vals, categories=LEVELS[v][:1] + ["unused category"] + LEVELS[v][1:], ordered=True)
             else:
                 raise ValueError(flavour)
         else:
